@@ -1,6 +1,6 @@
 PROPERTY = dict(
     level='model_checking',
-    level_text='Reduced scope. Bounded model checking of the real dependency-file readers: (D1) every path of the stated length over the characters special to the Makefile format, written with the documented escaping, is recovered byte for byte by lexWord, which also stops exactly at the end of the escaped text (followed by a separator or by the end of the file); (D2) a well-framed dependency-info file delivers every record once, in order, under the right callback, operand byte for byte; malformed framing and truncated escapes are C19 (H2, H3). (D3) the hand-off of ShellCommand::processMakefileDiscoveredDependencies: with the parser replaced by its contract (raw slice + unescaped word), the UNESCAPED path - joined to the working directory iff relative - is registered once as a discovered dependency on its node key.  The later re-execution is C01-O6/O2; the dependency-info hand-off and the error path are not decided.',
+    level_text='Reduced scope. Bounded model checking of the real dependency-file readers: (D1) every path of the stated length over the characters special to the Makefile format, written with the documented escaping, is recovered byte for byte by lexWord, which also stops exactly at the end of the escaped text (followed by a separator or by the end of the file); (D2) a well-framed dependency-info file delivers every record once, in order, under the right callback, operand byte for byte; malformed framing and truncated escapes are C19 (H2, H3). (D3) the hand-off of ShellCommand::processMakefileDiscoveredDependencies: with the parser replaced by its contract (raw slice + unescaped word), the UNESCAPED path - joined to the working directory iff relative - is registered once as a discovered dependency on its node key.  (D4) the loop over the dependency files of a command: the result is success exactly when every file could be read and parsed, the contents of each file go to the front end of the declared style, in order.  The later re-execution is C01-O6/O2; the dependency-info hand-off is not decided.',
     level_note='Trusted: clang-14 -O1 IR, ir2c (validated each run), CBMC+SAT. The writer used for D1 is the documented escaping, implemented in the harness.',
     bounds='paths 0..3 bytes (thorough 0..5) over {a, space, #, $, backslash, /, ., 0x80}; 1..2 records with operands of 1..2 non-NUL bytes',
     outside='ShellCommand::processDiscoveredDependencies (path resolution against the working directory, FFI getcwd); multi-rule dependency files (MakefileDepsParser::parse as a whole: C19-H2b, n <= 1); colons inside paths',
@@ -29,4 +29,12 @@ OBLIGATIONS = [
          noinline=['ShellCommand37processMakefileDiscoveredDependencies'], expect_functions=['ShellCommand37processMakefileDiscoveredDependencies'],
          stub_virtual=['ShellCommand(?!37)', 'ExternalCommand', '^_ZNK?7llbuild11buildsystem7Command(?!D)', 'JobDescriptor', 'MakefileDepsParser12ParseActions', 'DepsActions5errorE'], allow_external=['^_ZTV'], assert_external=['.'],
          unwind=8, params_quick=shapes(2), params_thorough=shapes(4), timeout=600, cbmc_flags=['--object-bits', '10'], cxxflags=['-include', '/verif/harness/C11/shim/pathmax.h']),
+    dict(name='D4.deps-files-loop', harness='C11/h_depsloop.cpp', entry='harness_depsloop', models=['engine'],
+         tus=['lib/BuildSystem/ShellCommand.cpp', 'lib/BuildSystem/ExternalCommand.cpp', 'lib/BuildSystem/BuildKey.cpp', 'lib/BuildSystem/BuildDescription.cpp', 'lib/Core/MakefileDepsParser.cpp'],
+         stubs=['BuildSystem11getDelegateEv$=stub_getDelegate', 'BuildSystem13getFileSystemEv$=stub_getFileSystem', '^_ZN4llvm3sys4path11is_absoluteERKNS_5TwineENS1_5StyleE$=stub_is_absolute',
+                'ShellCommand37processMakefileDiscoveredDependenciesE.*MemoryBufferEb$=stub_procMakefile', 'ShellCommand43processDependencyInfoDiscoveredDependenciesE.*MemoryBufferE$=stub_procDepInfo'],
+         noinline=['ShellCommand29processDiscoveredDependencies'], expect_functions=['ShellCommand29processDiscoveredDependencies'],
+         stub_virtual=['ShellCommand(?!29)', 'ExternalCommand', '^_ZNK?7llbuild11buildsystem7Command(?!D)', 'JobDescriptor', 'MakefileDepsParser12ParseActions', 'DepsActions'], noop_virtual=['HBufD[012]Ev$'],
+         allow_external=['^_ZTV'], assert_external=['.'],
+         unwind=8, params_quick=[{'VF_NP': n, 'VF_STYLE': st} for (n, st) in ((1, 1), (2, 1), (2, 2), (2, 3), (1, 0))], timeout=600, cbmc_flags=['--object-bits', '10'], cxxflags=['-include', '/verif/harness/C11/shim/pathmax.h']),
 ]
